@@ -1,6 +1,7 @@
 #!/bin/sh
 # tools/check_regress.sh [ORIG]  -- every regression seed must FAIL on the pre-fix tree ORIG (a checkout of
 # the pinned commit 4e29e4a, default /tmp/repo_orig) and PASS on /repo. Maintenance aid, not part of a check.
+# (create ORIG with: git -C /repo worktree add --detach /tmp/repo_orig 4e29e4a ; remove it afterwards with git worktree remove --force)
 ORIG=${1:-/tmp/repo_orig}
 cd "$(dirname "$0")/.." || exit 2
 bad=0
